@@ -19,8 +19,11 @@ props! {
     c01 => "C01",
     c02 => "C02",
     c03 => "C03",
+    c04 => "C04",
     c06 => "C06",
     c07 => "C07",
+    c08 => "C08",
+    c17 => "C17",
     c19 => "C19",
 }
 
